@@ -342,6 +342,32 @@ def documents(thorough):
         inner_d = elem("i", ns=P(a))
         yield "ns-rebound-and-back:prefixed", doc(elem("top", children=P(L(elem("g", ns=P(pa), children=P(L(elem("h", ns=P(pb), children=P(L(inner_p))))))))))
         yield "ns-rebound-and-back:default", doc(elem("top", children=P(L(elem("g", ns=P(a), children=P(L(elem("h", ns=P(b), children=P(L(inner_d))))))))))
+    # namespaces on siblings: what one element declares ends with that element, whatever form its children field has
+    # (absent, NULL, empty, one child), and a later sibling that declares the same binding gets its own declaration
+    # (added after a sixth-round seeded change: a scope kept by the writer's caller was not closed for elements without a children list)
+    A_, B_ = "urn:A", "urn:B"
+    sib_ns = [("absent",), P(A_), P(B_), P(T(("prefix", "p"), ("uri", A_))), P(T(("prefix", "p"), ("uri", B_)))]
+    kid_forms = ["absent", "null", "empty", "one"]
+
+    def sibling(i, n, kf):
+        pre = "p:" if (n[0] == "present" and is_tuple(n[1])) else ""
+        ch = {"absent": ("absent",), "null": P(None), "empty": P(L()), "one": P(L(elem(pre + "k%d" % i)))}[kf]
+        return elem(pre + "s%d" % i, ns=n, children=ch)
+    for top_ns in [("absent",), P(A_), P(T(("prefix", "q"), ("uri", A_)))]:
+        for combo in itertools.product(itertools.product(sib_ns, kid_forms), repeat=2):
+            yield "ns-siblings-2", doc(elem("top", ns=top_ns, children=P(L(*[sibling(i, n, kf) for i, (n, kf) in enumerate(combo)]))))
+        for combo in itertools.product(itertools.product(sib_ns, ["absent", "one"]), repeat=3):
+            yield "ns-siblings-3", doc(elem("top", ns=top_ns, children=P(L(*[sibling(i, n, kf) for i, (n, kf) in enumerate(combo)]))))
+    # an attribute spelled like the declaration the ns field writes: `xmlns` and `xmlns:p` are XML names, so the tuple is
+    # inside the quantifier; whatever the converter makes of it (refuse, or one declaration) the output must be well-formed
+    # (a sixth-round remark about the unchanged tree). Judged on well-formedness only, see work().
+    pq = T(("prefix", "p"), ("uri", A_))
+    for where in ("root", "child"):
+        for attrs, n in ((T(("xmlns", B_)), P(A_)), (T(("xmlns", A_)), P(A_)), (T(("xmlns:p", B_)), P(pq)), (T(("k", "v"), ("xmlns:p", A_)), P(pq)),
+                         (T(("xmlns", None)), P(A_)), (T(("xmlns:p", None)), P(pq)), (T(("xmlns", B_)), ("absent",)), (T(("xmlns:p", B_)), ("absent",)),
+                         (T(("xmlns:p", B_)), P(A_)), (T(("xmlns", B_)), P(pq))):
+            e = elem("e", attrs=P(attrs), ns=n)
+            yield "xmlns-attribute-beside-ns:%s" % where, doc(e if where == "root" else elem("r", children=P(L(e))))
     # declaration
     for v in [("absent",), P("1.0"), P("1.1"), P("2.0"), P("1"), P(None), P({"i": "1"})]:
         for e in [("absent",), P("utf-8"), P("UTF-8")]:
@@ -437,7 +463,18 @@ def work(chunk):
     hist = {}
     viol = []
     for (cls, w), rs in zip(chunk, resps):
-        oc, detail = judge(w, rs)
+        if cls.startswith("xmlns-attribute-beside-ns"):
+            oc, detail = "refused", None
+            if "ok" in rs:
+                oc = "written-well-formed"
+                try:
+                    xmltree(rs["ok"].get("utf8") or "")
+                except xml.parsers.expat.ExpatError as e:
+                    oc, detail = "NOT-WELL-FORMED", {"parser": str(e), "text": (rs["ok"].get("utf8") or "")[:400]}
+            elif "err" not in rs:
+                oc, detail = "CRASH", rs
+        else:
+            oc, detail = judge(w, rs)
         k = "%s:%s" % (cls.split(":")[0].split("|")[0], oc)
         hist[k] = hist.get(k, 0) + 1
         if detail is not None:
